@@ -22,6 +22,44 @@ type LemmaResult struct {
 
 // runLemmas discharges the lemma files of a property. A lemma file is a complete SMT-LIB script
 // whose (single) check-sat must answer unsat; its assumptions alone (goal removed) must be sat.
+// checkLemmaUses verifies the "; uses <contract key> <tag> :: <clause text>" lines of a lemma file against the
+// contract files: a lemma is a statement over contract clauses, so the clauses it transcribes must still exist verbatim.
+func checkLemmaUses(db *ContractDB, file, text string) []*LemmaResult {
+	var out []*LemmaResult
+	norm := func(s string) string { return strings.Join(strings.Fields(s), " ") }
+	for _, line := range strings.Split(text, "\n") {
+		line = strings.TrimSpace(line)
+		if !strings.HasPrefix(line, "; uses ") {
+			continue
+		}
+		rest := strings.TrimSpace(line[len("; uses "):])
+		i := strings.Index(rest, " :: ")
+		if i < 0 {
+			continue
+		}
+		head := strings.Fields(rest[:i])
+		if len(head) != 2 {
+			continue
+		}
+		key, tag, want := head[0], head[1], norm(rest[i+4:])
+		lr := &LemmaResult{Name: "uses." + key + "." + tag, File: file, Result: "error"}
+		if ct := db.ByKey[key]; ct != nil {
+			for _, cl := range ct.Clauses {
+				if cl.Tag == tag && norm(cl.Text) == want {
+					lr.OK, lr.Result, lr.Solver = true, "unsat", "text-match"
+				}
+			}
+		}
+		if !lr.OK {
+			lr.Output = "the contract clause transcribed by this lemma no longer exists verbatim: " + key + " " + tag
+		}
+		out = append(out, lr)
+	}
+	return out
+}
+
+var lemmaDB *ContractDB
+
 func runLemmas(dir, prop string, cfg *PropConfig, timeoutS int) []*LemmaResult {
 	var out []*LemmaResult
 	for _, pat := range cfg.Lemmas {
@@ -44,12 +82,19 @@ func runLemmaFile(dir, prop, file string, timeoutS int) []*LemmaResult {
 		return []*LemmaResult{{Name: file, Result: "error", Output: err.Error()}}
 	}
 	text := string(data)
+	var pre []*LemmaResult
+	if lemmaDB != nil {
+		for _, u := range checkLemmaUses(lemmaDB, file, text) {
+			u.Name = prop + ".lemma." + u.Name
+			pre = append(pre, u)
+		}
+	}
 	parts := strings.Split(text, "; lemma ")
 	common := parts[0]
 	if !strings.Contains(common, "(set-logic") {
 		common = basePrelude + common
 	}
-	var out []*LemmaResult
+	out := pre
 	for _, p := range parts[1:] {
 		nl := strings.Index(p, "\n")
 		name := strings.TrimSpace(p[:nl])
